@@ -46,9 +46,10 @@ def proj_sfs_sem(s):
         elif d in PSEUDO:
             w = derived_word(d, str(val[0]) if val else "", 20 if d in ("PUSHLIB", "PUSHDEPLOYADDRESS") else 32)
         ins.append({"id": u["id"], "op": op, "inp": [el(x) for x in u["inpt_sk"]], "out": [el(x) for x in u["outpt_sk"]], "w": w,
-                    "comm": bool(u.get("commutative", False))})
+                    "comm": bool(u.get("commutative", False)), "sto": bool(u.get("storage", False))})
     return {"src": [el(x) for x in s["src_ws"]], "tgt": [el(x) for x in s["tgt_ws"]], "ins": ins,
-            "deps": [[str(a), str(b)] for a, b in s.get("dependencies", [])], "cw": cw}
+            "deps": [[str(a), str(b)] for a, b in s.get("dependencies", [])], "cw": cw,
+            "b0": int(s.get("init_progr_len", 0)), "bs": int(s.get("max_sk_sz", 0))}
 
 
 def sub_programs(orig, sublist):
@@ -107,6 +108,51 @@ def run_denote(cases, cap, jobs=None, timeout=7200, tag="dn"):
             if t[2:] not in lst:
                 lst.append(t[2:])
     return verdicts, stats
+
+
+def run_realize(cases, cap, jobs=None, timeout=3600, tag="rz"):
+    """spec/SFSRealize.tla: every sequence spec/SFSMachine.tla accepts within the published bounds of the specification is
+    executed concretely, step by step, on every grid state, and compared at Goal with the run of the sub-block.
+    cases as for run_denote (sfs with sto, b0, bs).  -> ({id: [[g, clause, ...]]}, {id: goals}, stats, finished ids)"""
+    if not cases:
+        return {}, {}, {"states": 0, "transitions": 0, "inits": 0, "jvms": 0, "wall": 0.0, "timeouts": 0}, set()
+    jobs = jobs or common.NCPU
+    ws = []
+    for c in cases:
+        d = max(len(c["sfs"]["src"]), 1)
+        ws.append(c.get("pick", 8) * (len(c["sfs"]["ins"]) + 2 * d + 2) ** min(c["sfs"]["b0"], 8))
+    shards = common.shard_by_weight(cases, ws, min(len(cases), jobs * 3))
+    envs = []
+    for i, sh in enumerate(shards):
+        p = os.path.join(common.workdir(), "%s_cases_%d.json" % (tag, i))
+        common.write_json(p, {"seed": common.seed(), "cases": [{"id": c["id"], "sfs": c["sfs"], "prog": equiv.strip(c["prog"]),
+                                                                 "cap": c.get("cap", cap), "pick": c.get("pick", 8), "b0": c["sfs"]["b0"], "bs": c["sfs"]["bs"]} for c in sh]})
+        envs.append({"CASES": p})
+    results = common.run_tlc_shards("SFSRealize", "SFSRealize.cfg", envs, timeout=timeout, heap="3g", jobs=jobs, tag=tag)
+    verdicts, goals, finished = {}, {}, set()
+    stats = {"states": 0, "transitions": 0, "inits": 0, "jvms": len(results), "wall": 0.0, "timeouts": 0}
+    for r, sh in zip(results, shards):
+        stats["states"] += r.distinct
+        stats["transitions"] += r.generated
+        stats["wall"] = max(stats["wall"], r.wall)
+        for t in r.tagged("VERDICT"):
+            lst = verdicts.setdefault(t[1], [])
+            if t[2:] not in lst:
+                lst.append(t[2:])
+        for t in r.tagged("GOAL"):
+            goals[t[1]] = goals.get(t[1], 0) + 1
+        if r.ok:
+            exp = r.tagged("INITS")
+            m = re.search(r"Finished computing initial states: (\d+) distinct state", r.out)
+            if not exp or not m or int(m.group(1)) != exp[0][1]:
+                raise common.MachineryError("SFSRealize did not start from every (case, grid state): %r" % (exp,))
+            stats["inits"] += exp[0][1]
+            finished |= {c["id"] for c in sh}
+        elif r.rc == -9:
+            stats["timeouts"] += 1      # search budget exceeded: what was found so far still counts, the rest is undecided
+        else:
+            raise common.MachineryError("SFSRealize TLC run failed:\n" + r.out[-3000:])
+    return verdicts, goals, stats, finished
 
 
 def classify(vlist):
